@@ -236,7 +236,8 @@ structure PPS where
 structure Solution where
   scen : String          -- str(scenario_id)
   ver : String           -- scenario_id.scenario_version
-  pps : List PPS         -- `_planning_problem_solutions.values()`
+  pps : List PPS         -- `_planning_problem_solutions.values()`; the dict KEYS (the ids at assembly time) are not part of
+                         -- the state: writer, benchmark_id and planning_problem_ids read `pp_solution.planning_problem_id`
   date : Option Date
   ct : Option Tok
   proc : Option String
